@@ -452,6 +452,14 @@ func optTime(p *time.Time) sexp.Node {
 	return sexp.Some(zbig(nanosOf(*p)))
 }
 
+// the DateTime argument text exactly as query() sends it
+func optTimeStr(t *time.Time) sexp.Node {
+	if t == nil {
+		return sexp.None()
+	}
+	return sexp.Some(sexp.Str(t.Format(time.RFC3339Nano)))
+}
+
 func optStr(c curArg) sexp.Node {
 	if c == nil {
 		return sexp.None()
@@ -463,7 +471,8 @@ func (a argSpec) sexp() sexp.Node {
 	return sexp.T("args", sexp.T("first", optInt(a.First)), sexp.T("last", optInt(a.Last)),
 		sexp.T("after", curSexp(a.After)), sexp.T("before", curSexp(a.Before)),
 		sexp.T("from", optTime(a.From)), sexp.T("to", optTime(a.To)),
-		sexp.T("afterraw", optStr(a.After)), sexp.T("beforeraw", optStr(a.Before)))
+		sexp.T("afterraw", optStr(a.After)), sexp.T("beforeraw", optStr(a.Before)),
+		sexp.T("fromraw", optTimeStr(a.From)), sexp.T("toraw", optTimeStr(a.To)))
 }
 
 // ---------------------------------------------------------------------------------------------
